@@ -16,7 +16,7 @@ CLAIMS = {
              "globs the source unless an exception mask does, the channel is not +i or the user is invited or an invite-exception globs the source, and the member count is below +l; on refusal "
              "it reports exactly the first failing condition (475, 474, 473, 471); the whole one-channel command succeeds iff that rule and the max_joins quota hold, success inserts the member "
              "with the configured default ranks and consumes the invitation, refusal leaves the shared state identical, tells nobody else and answers the sender with a non-empty list. Comma "
-             "lists are the entry-wise application of the same plan (C07_accepted_effect / C07_refused_effect). Conditional on the handler returning Ok (no-Panic is C05).",
+             "lists with repeats and the quota: the plan of decisions is the prescribed one - each entry judged against the state at the start of the command with the key at its position, a channel accepted earlier in the list skipped, max_joins compared with the channels held plus the entries accepted so far - applied entry by entry (C07_comma_list, C07_accepted_effect / C07_refused_effect). Conditional on the handler returning Ok (no-Panic is C05).",
         design_ref="5 (C07)"),
     "C09": dict(
         technique="Coq proof (fold invariant over the victim loop: selected = named members the actor's rank may remove, duplicate-free; case analysis of TOPIC and INVITE) + 32x32 rank sweep against the real server with a rank-rule oracle",
@@ -66,12 +66,12 @@ CLAIMS = {
         text="Theorems (props/C06.v): the teardown of a registered connection (the single path of QUIT, EOF, reset, bad text, over-long line, pong timeout, KILL, DIE) deletes exactly its user record - "
              "so every other record (memberships, modes, invitations) is identical -, removes the nick from the WALLOPS audience, appends one WHOWAS entry, leaves every channel it was not on "
              "untouched and turns every channel it was on into the same channel minus that member and its rank-list entries, or drops it if that leaves it empty and not preconfigured; the slot "
-             "count decreases by one; a nick without user record is in no roster, rank list or audience; the end of an unregistered connection changes nothing.",
+             "count decreases by one; a nick without user record is in no roster, rank list or audience; the end of an unregistered connection changes nothing; as whole steps: a closing event (EOF/reset at any moment, invalid text, over-long line, pong timeout) of a registered connection is exactly its teardown with all these clauses and closes nobody else, and QUIT does the same after the ERROR line (C06_closing_event, C06_quit).",
         design_ref="5 (C06)"),
     "C08": dict(
         technique="Coq proof (mode_char / mode_chars frame and effect lemmas, rank sufficiency, refusal inertness) + exhaustive letter x sign x rank sweep against the real server with an announcement-replay oracle",
         text="Theorems (props/C08.v) for ALL channels, ranks and mode strings: which rank each letter requires, that a refused letter changes nothing, that an accepted flag/rank/list/param letter "
-             "has exactly its documented effect on the channel and nothing else, and that outsiders are refused. The announcement is tied to the effect on every run by replaying the broadcast "
+             "has exactly its documented effect on the channel and nothing else, and that outsiders are refused; 'exactly as announced' for the flags: for any number of groups, letters and sign switches, a flag letter in the announced '+' group is set in the new channel, one in the '-' group is clear, none is in both, a flag not announced is as it was, and the line goes to every member (C08_flags_as_announced). The parameter part of the announcement (+l/+k/lists/ranks) is tied to the effect on every run by replaying the broadcast "
              "MODE line onto the previous dump and comparing with the new dump.",
         design_ref="5 (C08)"),
     "C11": dict(
@@ -80,7 +80,7 @@ CLAIMS = {
              "connection, or belongs to the acting connection whose line was an OPER naming a configured operator with the verifying password from a matching source, or has just registered under default "
              "modes containing +o; no other of the 40 commands creates an operator or local operator (C11_no_other_command_confers); OPER confers iff configured name, password, mask; MODE on the own nick "
              "never turns an operator flag on and changes only the own mode field; MODE on a foreign nick changes nothing; KILL/DIE/SQUIT/WALLOPS/STATS from an unprivileged user give the privilege error and "
-             "the identical state; permitted KILL marks exactly the named user and the delivery closes exactly the owners of marked users; WALLOPS reaches exactly the +w users.",
+             "the identical state; permitted KILL marks exactly the named user and the delivery closes exactly the owners of marked users; WALLOPS reaches exactly the +w users; as whole steps: KILL closes exactly the victim's connection with the ERROR line naming killer and comment and removes exactly that record, DIE leaves no user and no registered connection (C11_kill_effect, C11_die_ends_all).",
         design_ref="5 (C11)"),
     "C12": dict(
         technique="Coq proof of the hiding statements that hold (LIST both forms, NAMES contribution, WHO by channel name) and a machine-checked refutation for NAMES with an explicit name + two-world differential check on the real server",
@@ -102,9 +102,9 @@ CLAIMS = {
         text="Theorems (props/C19.v): in every reachable world the invisible and operator counters equal the true counts and the connection counter equals the number of live connections; LUSERS "
              "therefore prints the actual numbers of users, invisible users, operators and channels; with max_connections = m never more than m connections are live; a closed connection is "
              "no longer live and the counter stays exact; the maximum reported by LUSERS is the true high-water mark: after every step it equals the maximum of its previous value and the current "
-             "population, and it dominates the population in every reachable world (C19_high_water_step, C19_high_water_dominates). The ISON/USERHOST texts are checked per run by the oracle (L2).",
+             "population, and it dominates the population in every reachable world (C19_high_water_step, C19_high_water_dominates). ISON names exactly the queried registered nicknames and USERHOST carries one entry per queried registered nickname with '*' iff operator and '-' iff away (C19_ison_exact, C19_userhost_exact).",
         design_ref="5 (C19)",
-        note="Partial at proof level: the ISON/USERHOST texts are checked on traces, not proved."),
+        ),
     "C13": dict(
         technique="Coq proof (tokenizer inverse of the relay serialiser by induction over blank-led tokens; well-formedness of every tokenised message; per-verb classification by case analysis over 41 verbs and arities) + grammar oracle, re-parse oracle, CRLF oracle and segmentation pairs on the real code",
         text="Theorems (props/C13.v): every message out of the tokenizer has a non-empty, blank-free command and middle parameters not starting with ':'; every line of the grammar - leading blanks, optional ':'source, "
@@ -138,7 +138,7 @@ CLAIMS = {
     "C18": dict(
         technique="Coq proof (the invariant over every interleaving of whole commands; concatenation lemma for run; two-phase model of the one handler with separate check and update) + source scan of lock acquisitions per handler + burst scenarios on the real multi-threaded binary",
         text="Theorems (props/C18.v): every interleaving of whole commands of any number of connections runs to the end and preserves the invariant, so of any number of claims to a nickname at most one "
-             "connection owns it; the unlocked NICK look-up followed by the commit under the write lock is safe for EVERY state produced in between (inert, or registration of a nick free at commit time); "
+             "connection owns it; the unlocked NICK look-up followed by the commit under the write lock is safe for EVERY state produced in between (inert, or registration of a nick free at commit time) and linearises at commit time (nick free both times) or at look-up time (nick taken at look-up); "
              "whoever is first in the serial order creates a channel and is its founder, nobody after gets 'create'; a JOIN is accepted only below the +l limit in force; what a connection receives is "
              "never reordered across commands. That each handler is one critical section is read off the source and re-scanned on every run (inventory/lock_shape.json); real schedules are exercised "
              "by bursts of 24 simultaneous claims / first joins / limited joins, pipelined numbered messages and liveness probes under lock contention (L2).",
